@@ -13,14 +13,14 @@ import (
 )
 
 // scriptBody returns a scripted sequence of (n, err) results.
-type scriptBody struct {
+type zzscriptBody struct {
 	data  []byte
 	ns    []int
 	errs  []error
 	calls int
 }
 
-func (b *scriptBody) Read(p []byte) (int, error) {
+func (b *zzscriptBody) Read(p []byte) (int, error) {
 	if b.calls >= len(b.ns) {
 		return 0, io.EOF
 	}
@@ -36,9 +36,9 @@ func (b *scriptBody) Read(p []byte) (int, error) {
 	b.data = b.data[n:]
 	return n, err
 }
-func (b *scriptBody) Close() error { return nil }
+func (b *zzscriptBody) Close() error { return nil }
 
-var errBoom = errors.New("boom")
+var zzerrBoom = errors.New("boom")
 
 // VerifC15Marbl: the marbl body wrapper returns exactly the (n, err) sequence
 // and bytes of the wrapped body, the rest of the message is untouched, and an
@@ -57,8 +57,8 @@ func VerifC15Marbl() {
 	}
 	// scripted body: up to `reads` reads, each returning 0..2 bytes and nil / EOF / another error
 	reads := 1 + vf.Choice("reads", vf.Param("reads"))
-	sb := &scriptBody{data: vf.Bytes("body", 2*reads)}
-	ref := &scriptBody{data: append([]byte(nil), sb.data...)}
+	sb := &zzscriptBody{data: vf.Bytes("body", 2*reads)}
+	ref := &zzscriptBody{data: append([]byte(nil), sb.data...)}
 	for i := 0; i < reads; i++ {
 		n := vf.Choice("n", 3)
 		var e error
@@ -66,7 +66,7 @@ func VerifC15Marbl() {
 		case 1:
 			e = io.EOF
 		case 2:
-			e = errBoom
+			e = zzerrBoom
 		}
 		sb.ns, sb.errs = append(sb.ns, n), append(sb.errs, e)
 		ref.ns, ref.errs = append(ref.ns, n), append(ref.errs, e)
